@@ -22,7 +22,8 @@ CONSTANTS MaxBatch,   \* maximal number of batch members
           Variant,    \* "code" | "frozen_mask" | "add_full" | "all_members" | "extra_try"
           Emit
 
-J == 1                \* base jitter
+VARIABLE jb           \* base jitter of this call: 1, or 0 (an explicit zero: nothing is ever added, a non-PD member cannot be repaired)
+J == jb
 \* ---- member kinds: 2x2 [[a, b], [b, a]] and a 3x3 one; NaN is encoded by kind ---------------------
 Kinds == <<"pd", "pd3", "singular", "indef1", "indef2", "hopeless", "nan", "singular3">>
 \* matrices as sequences of rows
@@ -70,13 +71,13 @@ VARIABLES ms,        \* member kinds of this call
           i,         \* next try index
           st,        \* "init" | "loop" | "ok" | "nan" | "notpsd"
           nwarn, hist
-vars == <<ms, maxTries, upper, jit, info, mask0, i, st, nwarn, hist>>
+vars == <<ms, maxTries, upper, jit, info, mask0, i, st, nwarn, hist, jb>>
 
 Batches == UNION { [1..n -> {Kinds[k] : k \in 1..Len(Kinds)}] : n \in 1..MaxBatch }
 SameSize(b) == \A x, y \in 1..Len(b) : Len(Mat(b[x])) = Len(Mat(b[y]))
 
 Init == /\ ms \in {b \in Batches : SameSize(b)}
-        /\ maxTries \in 1..3 /\ upper \in {0, 1}
+        /\ maxTries \in 1..3 /\ upper \in {0, 1} /\ jb \in {0, 1}
         /\ jit = [b \in 1..Len(ms) |-> 0] /\ info = [b \in 1..Len(ms) |-> FALSE] /\ mask0 = info
         /\ i = 0 /\ st = "init" /\ nwarn = 0 /\ hist = <<>>
 
@@ -90,7 +91,7 @@ First ==
   /\ IF \A b \in 1..Len(ms) : ~info'[b] THEN st' = "ok"
      ELSE IF \E b \in 1..Len(ms) : ms[b] = "nan" THEN st' = "nan"
      ELSE st' = "loop"
-  /\ UNCHANGED <<ms, maxTries, upper, i, nwarn>>
+  /\ UNCHANGED <<ms, maxTries, upper, i, nwarn, jb>>
 
 Tries == IF Variant = "extra_try" THEN maxTries + 1 ELSE maxTries
 
@@ -106,10 +107,10 @@ Retry ==
   /\ i' = i + 1
   /\ LogA
   /\ st' = IF \A b \in 1..Len(ms) : ~info'[b] THEN "ok" ELSE "loop"
-  /\ UNCHANGED <<ms, maxTries, upper, mask0>>
+  /\ UNCHANGED <<ms, maxTries, upper, mask0, jb>>
 
 GiveUp == /\ st = "loop" /\ i >= Tries /\ st' = "notpsd"
-          /\ UNCHANGED <<ms, maxTries, upper, jit, info, mask0, i, nwarn, hist>>
+          /\ UNCHANGED <<ms, maxTries, upper, jit, info, mask0, i, nwarn, hist, jb>>
 
 Next == First \/ Retry \/ GiveUp
 Spec == Init /\ [][Next]_vars
@@ -124,6 +125,6 @@ NoBadFactor == (st = "ok") => \A b \in 1..Len(ms) : CholOk(ms[b], jit[b])
 MonotoneJitter == [][\A b \in 1..Len(ms) : jit'[b] >= jit[b] /\ (jit'[b] > jit[b] => info[b] \/ Variant # "code")]_vars
 WarnIffJitter == Done => ((nwarn > 0) <=> (\E b \in 1..Len(ms) : jit[b] > 0) \/ st = "notpsd")
 
-EmitInv == (Emit /\ Done) => PrintT(ToJson([ms |-> ms, mats |-> [b \in 1..Len(ms) |-> Mat(ms[b])], max_tries |-> maxTries, upper |-> upper, outcome |-> st,
+EmitInv == (Emit /\ Done) => PrintT(ToJson([ms |-> ms, mats |-> [b \in 1..Len(ms) |-> Mat(ms[b])], max_tries |-> maxTries, upper |-> upper, jbase |-> jb, outcome |-> st,
                                            jit |-> jit, nwarn |-> nwarn, attempts |-> hist]))
 =============================================================================
